@@ -84,13 +84,14 @@ def split_worker(case):
     import sys
     cid = case['id']
     g = case['g']
-    base = {'rules': {k: v for k, v in g['rules'].items() if k not in SPLIT}, 'ign': [], 'start': 'start'}
+    base = {'rules': {k: v for k, v in g['rules'].items() if k not in SPLIT}, 'ign': g.get('ign') or [], 'start': 'start'}
+    ign_names = (case.get('cfg') or {}).get('ign_names')
     child = {'rules': {k: v for k, v in g['rules'].items() if k in SPLIT}, 'ign': [], 'start': ''}
     a, b = 'vg_c20a_%d' % cid, 'vg_c20b_%d' % cid
     try:
-        b1 = realrun.build(render.grammar(base, name=a))
+        b1 = realrun.build(render.grammar(base, name=a, ign_names=ign_names))
         if b1[0] != 'ok':
-            return {'id': cid, 'desc': render.grammar(base, name=a), 'build': list(b1), 'obs': []}
+            return {'id': cid, 'desc': render.grammar(base, name=a, ign_names=ign_names), 'build': list(b1), 'obs': []}
         desc = render.grammar(child, name=b, extends=a)
         b2 = realrun.build(desc)
         if b2[0] != 'ok':
@@ -100,7 +101,7 @@ def split_worker(case):
         for run in case['runs']:
             obs.append(realrun.call_parse(mod, getattr(mod, run[0]).parse, realrun.to_text(run[1]), run[2], True,
                                           per_case_timeout=2.0))
-        return {'id': cid, 'desc': render.grammar(base, name=a) + '\n' + desc, 'build': ['ok'], 'obs': obs}
+        return {'id': cid, 'desc': render.grammar(base, name=a, ign_names=ign_names) + '\n' + desc, 'build': ['ok'], 'obs': obs}
     finally:
         sys.modules.pop(a, None)
         sys.modules.pop(b, None)
@@ -134,7 +135,7 @@ def run(chk):
                         'module; additionally the words the grammar language itself reserves are not used as new names',
                         'known findings are identified by (pool name, role, failure signature)']
     taken = {'Item', 'Word', 'Pair', 'key', 'val', 'gap', 'Wrap', 'p', 'tmp', 'Box', 'q', 'it', 'n', 'stars', 'start', 'm', 'xs',
-             'Cnt', 'more', 'Zlast', 't', 'Tab', 'Tuse', 'ZW', 'ZB', 'ZC', 'h', 'z', 'Inv', 'ZI', 'Hold', 'hh'}
+             'Cnt', 'more', 'Zlast', 't', 'Tab', 'Tuse', 'ZW', 'ZB', 'ZC', 'h', 'z', 'Inv', 'ZI', 'Hold', 'hh', 'Junk', 'Til'}
     # every public attribute of the package the translator looks constructors up in (classes, helper functions, submodules)
     import sys
     if realrun.REPO not in sys.path:
@@ -180,6 +181,11 @@ def run(chk):
     chk.notes['dynamic_pool_sample'] = dyn[:25]
     cases2 = enumerate_cases(chk, dyn, 'MC_C20(dynamic pool)', dyn=True) if dyn else []
     allc = cases + cases2
+    # an ignored rule is a rule: the names already listed as known findings for the role "rule" (builtins the runtime calls,
+    # words of the description language) are not tried again in the role "ignored rule"
+    known_rule_names = {f['tag'].split('|')[0] for f in chk.known if f.get('tag', '').endswith('|rule')} if hasattr(chk, 'known') else set()
+    known_rule_names |= set(BUILTINS) | set(LANGUAGE_PREFIXES)
+    allc = [c for c in allc if not ((c.get('cfg') or {}).get('role') == 'ignored rule' and (c['cfg'].get('to') in known_rule_names))]
     ill = [c for c in allc if any(e[0] == 'ill' for e in c['exp'])]
     if ill:     # the renaming of the specification must itself be complete (a run it calls ill-formed is never compared)
         raise MachineryFailure('renamed grammar ill-formed in the specification: %r' % (ill[0].get('cfg'),))
